@@ -13,7 +13,9 @@ export VERIF_DIR="${VERIF_DIR:-$(cd "$(dirname "$0")" && pwd)}"
 export VERIF_REPO="${VERIF_REPO:-/repo}"
 cd "$VERIF_DIR" || exit 2
 
-SCR=$(mktemp -d "${VERIF_SCRATCH:-/var/tmp}/verif-XXXXXX") || exit 2
+# scratch directory: $VERIF_SCRATCH, else /var/tmp, else the system's temporary
+# directory (nothing in it outlives the command)
+SCR=$(mktemp -d "${VERIF_SCRATCH:-/var/tmp}/verif-XXXXXX" 2>/dev/null) || SCR=$(mktemp -d "${TMPDIR:-/tmp}/verif-XXXXXX") || exit 2
 cleanup() { rm -rf "$SCR"; }
 trap cleanup EXIT
 trap 'cleanup; exit 2' INT TERM
